@@ -30,44 +30,46 @@ type ClauseParam struct {
 }
 
 type Clause struct {
-	Kind   string // requires | ensures | invariant | decreases | panics | modifies
-	Loop   int
-	Text   string
-	Props  []string
-	GoExpr string
-	FnName string
-	Params []ClauseParam
-	ModKind string // for modifies: elems | obj | field | mapof | global
-	ModField string
-	Anchor  string // for assert: source text prefix of the statement before which it holds
-	AnchorPos, AnchorEnd token.Pos
-	AnchorFile string
+	Kind                    string // requires | ensures | invariant | decreases | panics | modifies
+	Loop                    int
+	Text                    string
+	Props                   []string
+	GoExpr                  string
+	FnName                  string
+	Params                  []ClauseParam
+	ModKind                 string // for modifies: elems | obj | field | mapof | global
+	ModField                string
+	Anchor                  string // for assert: source text prefix of the statement before which it holds
+	AnchorPos, AnchorEnd    token.Pos
+	AnchorFile              string
 	AnchorOff, AnchorEndOff int
-	Known  bool
+	Known                   bool
 }
 
 type Contract struct {
-	PkgPath   string
-	Func      string // package-relative SSA name
-	Props     []string
-	Requires  []*Clause
-	Ensures   []*Clause
-	Invs      map[int][]*Clause
-	Decr      map[int]*Clause
-	Modifies  []*Clause
-	Asserts   []*Clause
-	Linear    []string // slice variables used linearly (s = append(s, ...))
-	Inline    bool
-	Strict    bool
-	Trusted   bool
-	Lemma     bool
-	Allocates bool
+	PkgPath     string
+	Func        string // package-relative SSA name
+	Props       []string
+	Requires    []*Clause
+	Ensures     []*Clause
+	Invs        map[int][]*Clause
+	Decr        map[int]*Clause
+	Modifies    []*Clause
+	Asserts     []*Clause
+	Linear      []string // slice variables used linearly (s = append(s, ...))
+	Bounded     string   // non-empty: the obligations are a bounded stand-in with this stated bound
+	Tier        string   // "thorough": only checked in the thorough tier
+	Inline      bool
+	Strict      bool
+	Trusted     bool
+	Lemma       bool
+	Allocates   bool
 	SafetyProps []string
-	NoSafety  bool
-	PanicsWhen *Clause
-	Unroll    map[int]int
-	File      string
-	Line      int
+	NoSafety    bool
+	PanicsWhen  *Clause
+	Unroll      map[int]int
+	File        string
+	Line        int
 	// phase-1 info
 	ParamNames  []string
 	ResultNames []string
@@ -213,6 +215,10 @@ func parseContractFile(path, pkgPath string) ([]*Contract, error) {
 					cur.Linear = append(cur.Linear, n)
 				}
 			}
+		case "tier":
+			cur.Tier = strings.TrimSpace(rest)
+		case "bounded":
+			cur.Bounded = rest
 		case "inline":
 			cur.Inline = true
 		case "strict":
@@ -256,8 +262,9 @@ func splitTop(s string, sep byte) []string {
 }
 
 // rewriteSpec turns the contract expression syntax into plain Go.
-//   forall k T :: e   ->  verif_forall(func(k T) bool { return e })
-//   a ==> b           ->  (!(a) || (b))
+//
+//	forall k T :: e   ->  verif_forall(func(k T) bool { return e })
+//	a ==> b           ->  (!(a) || (b))
 func rewriteSpec(s string) string {
 	s = strings.TrimSpace(s)
 	// quantifier at top level (anywhere): everything to its right is its body
